@@ -1,4 +1,6 @@
 import PPLV.Solver.MIP
+import PPLV.Solver.BBDriver
+import PPLV.Solver.PendingDriver
 
 /-! `pplv_mip`: replays a `MIP_Problem` journal (harness/c06_mip.cc) on the data model
 (`Problem.apply`) and judges every observation with the verified reference
@@ -414,6 +416,9 @@ partial def loop (h : IO.FS.Stream) (ln : Nat) : M Unit := do
   loop h (ln + 1)
 
 def main (args : List String) : IO UInt32 := do
+  -- stage 3: `--bb` branch-and-bound tree replay, `--tab` tableau set-up / simplex replay
+  if args.head? == some "--bb" then return ← PPLV.Solver.BBDriver.run args.tail
+  if args.head? == some "--tab" then return ← PPLV.Solver.PendingDriver.run args.tail
   let rec opts (a : List String) (st : St) : St :=
     match a with
     | "--budget" :: k :: r => opts r { st with budget := k.toNat?.getD 400 }
